@@ -586,9 +586,26 @@ class SymList:
     """A list after havoc: `n0` unknown elements (n0 >= 0 symbolic) followed by the concrete `tail`
     appended since.  Supports append / len / truthiness; reading the unknown prefix is outside the subset."""
 
-    def __init__(self, n0, tail=None):
+    def __init__(self, n0, tail=None, elem_spec=None):
         self.n0 = n0
         self.tail = list(tail or [])
+        self.elem_spec = elem_spec  # Spec of an arbitrary element (lists of unknown length given as input)
+        self.materialized = []  # (value, concretizer) of the elements a run looked at
+
+
+class ListOfAny(Spec):
+    """A list of any length whose elements are described by `elem_spec`. A loop over it needs a LoopSpec:
+    its body is then checked for one arbitrary element (and the exit), i.e. for every list."""
+
+    def __init__(self, elem_spec):
+        self.elem_spec = elem_spec
+
+    def make(self, path, name):
+        n0 = path.fresh_int(name + ".len")
+        path.assume(n0 >= 0)
+        lst = SymList(n0, [], self.elem_spec)
+        lst.name = name
+        return lst, lambda ev: [c(ev) for _, c in lst.materialized]
 
 
 class SymDict:
@@ -610,11 +627,12 @@ class LoopSpec:
     Obligations: invariant on entry, invariant preserved by one arbitrary iteration, variant decreases.
     """
 
-    def __init__(self, qualname, ordinal, modifies, invariant, decreases=None, int_ranges=None):
+    def __init__(self, qualname, ordinal, modifies, invariant, decreases=None, int_ranges=None, post=None):
         self.qualname, self.ordinal = qualname, ordinal
         self.modifies = modifies
         self.invariant = invariant
         self.decreases = decreases
+        self.post = post  # per-iteration postcondition (checked after the body of the arbitrary iteration)
         LOOPS[(qualname, ordinal)] = self
 
     def _call(self, I, fn, frame):
@@ -664,6 +682,8 @@ class LoopSpec:
         from .core import PathAbort
         from .interp import _Break, _Continue
 
+        if kind == "for" and isinstance(iterable, SymList):
+            return self.run_for_list(I, s, frame, iterable)
         if kind == "for":
             return self.run_for_range(I, s, frame, iterable)
         prove = I.cfg["prove"]
@@ -692,6 +712,38 @@ class LoopSpec:
             v1 = self._call(I, self.decreases, frame)
             prove("loop-variant-decreases", site, z3.And(iexpr(v0) >= 0, iexpr(v1) < iexpr(v0)))
         raise PathAbort()  # an arbitrary iteration has been checked; the exit path continues separately
+
+    def run_for_list(self, I, s, frame, lst):
+        """`for x in <list of unknown length>`: either the loop is over, or its body runs on one arbitrary
+        element: invariant + per-iteration postcondition are proved for it (hence for every element)."""
+        from .core import PathAbort
+        from .interp import _Break, _Continue
+
+        if lst.elem_spec is None or lst.tail:
+            raise Unsupported("loop over a havocked list without element description")
+        prove = I.cfg["prove"]
+        site = f"{self.qualname}#loop{self.ordinal}"
+        prove("loop-invariant-entry", site, I.as_z3_bool(self._call(I, self.invariant, frame)))
+        if self.modifies:
+            self._havoc(I, frame)
+            I.path.assume(I.as_z3_bool(self._call(I, self.invariant, frame)))
+        if I.path.choose(2, "loop!iterate-or-exit") == 1:
+            I.exec_block(s.orelse, frame)
+            return
+        I.path.assume(lst.n0 >= 1)
+        elem, conc = lst.elem_spec.make(I.path, getattr(lst, "name", "list") + "[any]")
+        lst.materialized.append((elem, conc))
+        I.assign(s.target, elem, frame)
+        try:
+            I.exec_block(s.body, frame)
+        except _Break:
+            pass
+        except _Continue:
+            pass
+        prove("loop-invariant-preserved", site, I.as_z3_bool(self._call(I, self.invariant, frame)))
+        if self.post is not None:
+            prove("loop-iteration-post", site, I.as_z3_bool(self._call(I, self.post, frame)))
+        raise PathAbort()
 
     def run_for_range(self, I, s, frame, iterable):
         """`for x in range(a, b, step)` (step > 0 constant): the invariant speaks about the state only;
